@@ -347,8 +347,11 @@ def _first_strategy():
         lambda t: (_dumps(t[0], t[1]), "natural")
     )
     prog = asm.programs(prof, max_len=16).map(lambda p: (p.data, "program"))
+    big = st.tuples(values.multi_frame_values(), st.sampled_from([4, 5])).map(
+        lambda t: (pickle.dumps(t[0], protocol=t[1]), "multiframe")
+    )
     bnd = st.composite(lambda draw: (_boundary_program(draw)[0], "boundary"))()
-    return st.one_of(nat, inst, prog, bnd, bnd)
+    return st.one_of(nat, nat, nat, inst, inst, inst, prog, prog, prog, bnd, bnd, bnd, bnd, big)
 
 
 def _dumps(v, proto):
@@ -387,7 +390,7 @@ def run_shard(spec, seed):
                     res.excluded["KF-C06-1 non-seekable trailing-bytes clause"] += 1
                 res.note(
                     (first.hex(), trail.hex(), delivery),
-                    bool(trail) or kind == "boundary",
+                    bool(trail) or kind in ("boundary", "multiframe"),
                     klass=[klass, "delivery:" + delivery, "kind:" + kind],
                     sample={"first": first.hex(), "trailing": trail.hex(), "delivery": delivery},
                 )
